@@ -16,6 +16,7 @@ import ProfiVerif.Lemmas.ColdStartSolo
 import ProfiVerif.Lemmas.ListenLearn
 import ProfiVerif.Lemmas.ListenNet
 import ProfiVerif.Lemmas.ColdStartDuo
+import ProfiVerif.Lemmas.ColdStartReply
 
 namespace PV.C06
 open PV
@@ -1111,5 +1112,78 @@ example : TwoRun 0 1 3 5 4800 4900 (cfgR.formTime 10) netL evsT :=
   two_station_cold_start_until_polled cfgR cfgR_ok (by decide) 1000 (by decide) 0 1 { s := sL3, apps := [], online := true }
     { s := sL5, apps := [], online := true } 0 50 (by decide) (by decide) (by decide) viewOne (by decide) evsT netL 50 cs2L rfl
     (by decide) (by decide) (schedN_of_times _ _ _ _ (schedNT_of_b 100 2 evsT [0, 50] 50 (by decide)))
+
+/-! ## The first answered GAP request (cold start of two stations, phase (b'): request – pause – reply – reception) -/
+
+/-- **A GAP request to a listening station is answered "not ready" and the reply is received** (C02 / C12 on the
+bus, any lag).  Two station models on the byte-accurate bus.  Start (`HQ`, first alternative `HQ0`): the claimant `x`
+(address `aL`, `ClaimToken`, scanning) has just put the GAP request to the address `aH` of the listener `y` on the
+bus at `r` and awaits the reply; the log is the lone transmitter's; `y` is in `ListenToken`, satisfies the listener
+condition `LLOkX` with the request among the transmissions it has not consumed yet (arbitrary lag), and will not be
+ready when it has heard everything up to the request (`hnr`; ready needs two complete rotations).  Every station is
+polled at least every `P` (`SchedN`; `2 + 2P + bits 33 + ⌈11 bit⌉ ≤ Tslot`), `Tslot + 3P ≤ G`,
+`G + ⌈11 bit⌉ + 2 ≤ Tto_y` (part of `LLOkX`).  Then (`RplRun`) every poll returns regularly; `x` transmits nothing
+and its slot time NEVER runs out (no retry, no false "nobody there"): the listener registers the request at its first
+poll after the last character, waits for the synchronisation pause (33 bit), sends the reply "not ready" exactly in
+that poll and goes back to listening; the claimant receives the reply in whatever pieces it arrives (its slot timer
+restarts with every character), consumes it exactly when it is complete, does not admit the station and goes on with
+its GAP scan (`HQ3`: both stations up to date with the log, whose last entry is the reply) — no later than
+`2 · ⌈66 bit⌉ + bits 33 + 3 P` after the start of the request.  The phases are `hq0_…`, `hq1_…`, `hq2_…` in
+`Lemmas/ColdStartReply.lean`. -/
+theorem gap_request_answered_not_ready (cfg : Cfg) (hok : cfg.Ok) (G : Nat) (hG : cfg.slot + 3 * cfg.P ≤ G) (x y : Nat)
+    (r : Int) (r0 : TokenRing) (T : List Telegram) (aL aH : Nat) (hnr : (hearAll aL T r0).readyForRing = false)
+    (evs : List (Nat × Int)) (n : Net) (stx sty : NetStation) (coll : Nat) (tl : Int)
+    (hq : HQ cfg G n x y stx sty r r0 T coll tl) (hN : n.stations.length = 2) (haL : stx.s.p.address = aL)
+    (haH : sty.s.p.address = aH) (hs : SchedN cfg.P n tl evs) :
+    RplRun cfg x y aL aH (r + 2 * ((cfg.ce 5 : Nat) : Int) + (cfg.b33 : Nat) + 3 * (cfg.P : Nat)) n evs :=
+  reply_run hok G hG x y r r0 T aL aH hnr evs n stx sty coll tl hq hN haL haH hs
+
+/-! Non-vacuity: the request of station 3 to address 5 started at 1000 µs and has been registered by the listener at
+1150 µs (phase `HQ1`); both polled every 100 µs; the reply is sent at 1250 µs and consumed at 1400 µs. -/
+open PV.C13 in
+def sQ3 : Station := { (Station.new pR3) with online := true, st := .claimToken (.scanAwait 5), gap := .doPoll 5, lastBusActivity := some 1132 }
+open PV.C13 in
+def sQ5 : Station := { (Station.new pR5) with online := true, st := .listenToken (some 3) 0, lastBusActivity := some 1150 }
+def nsQ3 : NetStation := { s := sQ3, apps := [], online := true }
+def nsQ5 : NetStation := { s := sQ5, apps := [], online := true }
+def netQ : Net := { bus := { rate := 500000, txs := [rqTx 0 3 5 1000], seen := [1140, 1150] }, stations := [nsQ3, nsQ5] }
+
+open PV.C13 in
+theorem hq1Q : HQ1 cfgR netQ 0 1 nsQ3 nsQ5 1000 1150 0 1150 := by
+  have hinv3 : Inv sQ3 [] := by
+    have h := inv_new pR3 [] (by decide) (by decide) (by intro s hs; cases hs)
+    exact ⟨h.addr, h.hsa, h.ring, fun ho => by simp [sQ3] at ho, fun cur hc => by simp [sQ3] at hc; subst hc; decide,
+      fun a ha => by simp [sQ3] at ha, fun a ha => by simp [sQ3] at ha; subst ha; exact ⟨rfl, by decide⟩, h.app,
+      fun a d ha => by simp [sQ3] at ha, h.scripts, by simp [sQ3]⟩
+  have hinv5 : Inv sQ5 [] := by
+    have h := inv_new pR5 [] (by decide) (by decide) (by intro s hs; cases hs)
+    exact ⟨h.addr, h.hsa, h.ring, fun ho => by simp [sQ5] at ho, h.gap, fun a ha => by simp [sQ5] at ha,
+      fun a ha => by simp [sQ5] at ha, h.app, fun a d ha => by simp [sQ5] at ha, h.scripts, by simp [sQ5]⟩
+  have hce : cEnd cfgR (rqTx 0 3 5 1000) = 1132 := by rw [cEnd_rq]; decide
+  have hpos : 0 < (rqTx 0 3 5 1000).bytes.length := by
+    show 0 < (StationGap.statusRequestBytes 5 3).length; rw [StationGap.statusRequestBytes_length]; decide
+  refine ⟨?_, rfl, rfl, ?_, rfl, by decide, by decide, by decide, by decide, ?_, rfl, ?_, by decide⟩
+  · exact ⟨rfl, rfl, rfl, List.pairwise_singleton _ _,
+      (fun o ho => by simp only [netQ, List.mem_singleton] at ho; subst ho; rfl),
+      (fun o ho => by simp only [netQ, List.mem_singleton] at ho; subst ho; exact hpos),
+      (fun o ho => by simp only [netQ, List.mem_singleton] at ho; subst ho; exact .inl rfl),
+      (fun o ho _ => by simp only [netQ, List.mem_singleton] at ho; subst ho; rw [hce]; decide),
+      by decide, by decide, rfl, rfl, rfl, hinv3, rfl, rfl, rfl, rfl, rfl⟩
+  · exact ⟨rfl, rfl, rfl, List.pairwise_singleton _ _,
+      (fun o ho => by simp only [netQ, List.mem_singleton] at ho; subst ho; rfl),
+      (fun o ho => by simp only [netQ, List.mem_singleton] at ho; subst ho; exact hpos),
+      (fun o ho => by simp only [netQ, List.mem_singleton] at ho; subst ho; right; rw [hce]; decide),
+      (fun o ho hs => by simp only [netQ, List.mem_singleton] at ho; subst ho; cases hs),
+      by decide, by decide, rfl, rfl, rfl, hinv5, rfl, rfl, rfl, rfl, rfl⟩
+  · intro t ht; simp only [netQ, List.mem_singleton] at ht; subst ht; rfl
+  · intro t ht; simp only [netQ, List.mem_singleton] at ht; subst ht; decide
+
+def evsRp : List (Nat × Int) := [(0, 1200), (1, 1250), (0, 1300), (1, 1350), (0, 1400), (1, 1450), (0, 1500), (1, 1550)]
+
+open PV.C13 in
+example : RplRun cfgR 0 1 3 5 1630 netQ evsRp :=
+  gap_request_answered_not_ready cfgR cfgR_ok 1000 (by decide) 0 1 1000 (TokenRing.new 5) [] 3 5 (by decide) evsRp netQ nsQ3 nsQ5
+    0 1150 (.inr (.inl ⟨1150, hq1Q, by decide⟩)) rfl rfl rfl
+    (schedN_of_times _ _ _ _ (schedNT_of_b 100 2 evsRp [1140, 1150] 1150 (by decide)))
 
 end PV.C06
